@@ -455,6 +455,21 @@ let print_partitions cpu nmax jmin jmax =
   done
 
 let () =
+  if Sys.argv.(1) = "--selfcheck" then begin
+    (* extraction self-check: the same Gallina term is evaluated by vm_compute inside Coq (bin/selfcheck compares) *)
+    let rec zstr (z : z) : string =
+      (* decimal printing of an extracted Z of any size *)
+      let ten = z_of_int 10 in
+      match z with
+      | Z0 -> "0"
+      | Zneg p -> "-" ^ zstr (Zpos p)
+      | Zpos _ ->
+          let q = Z.div z ten and r = Z.modulo z ten in
+          (if q = Z0 then "" else zstr q) ^ string_of_int (int_of_z r) in
+    for k = 1 to int_of_string Sys.argv.(2) do
+      Printf.printf "K %d %s\n" k (String.concat " " (List.map zstr (selfcheck_case (z_of_int k))))
+    done
+  end else
   if Sys.argv.(1) = "--part" then
     print_partitions (int_of_string Sys.argv.(2)) (int_of_string Sys.argv.(3)) (int_of_string Sys.argv.(4)) (int_of_string Sys.argv.(5))
   else begin
